@@ -78,7 +78,8 @@ def _alarm(signum, frame):
     raise CaseTimeout()
 
 
-signal.signal(signal.SIGALRM, _alarm)
+# CPU time, not wall-clock time (independent of machine load)
+signal.signal(signal.SIGPROF, _alarm)
 CASE_SECONDS = 60
 
 
@@ -413,14 +414,14 @@ def prepare_graph(case, recipe_or_none, ctx, tname, target, res):
 def run_case(case, cfg):
     """one case under a wall-clock and memory bound; a graph whose emitted text is too large / too slow
     to handle is reported as skipped, never as a violation"""
-    signal.alarm(CASE_SECONDS)
+    signal.setitimer(signal.ITIMER_PROF, CASE_SECONDS)
     try:
         res = run_case_(case, cfg)
     except (CaseTimeout, MemoryError, RecursionError) as ex:
         res = dict(id=case["id"], kind=case["kind"], status="skipped-too-large", error=type(ex).__name__,
                    target=(case.get("recipe") or {}).get("target", case.get("target")))
     finally:
-        signal.alarm(0)
+        signal.setitimer(signal.ITIMER_PROF, 0)
     if any(p.get("error") in ("TooLarge", "MemoryError", "RecursionError") for p in res.get("prints", [])):
         res = dict(id=case["id"], kind=case["kind"], status="skipped-too-large", error="TooLarge", target=res.get("target"))
     return res
